@@ -36,6 +36,33 @@ Section WithHash.
   Proof. unfold mangled. intros H E. injection E as E. apply H, hashable_injective, hash_inj, E. Qed.
 End WithHash.
 
+(* two different types called "Punkt" declared in the modules /d/ma and /d/mb *)
+Definition punkt : str := [80; 117; 110; 107; 116]%N.
+Definition mod_ma : str := [47; 100; 47; 109; 97]%N.
+Definition mod_mb : str := [47; 100; 47; 109; 98]%N.
+
+Lemma map_injective {A B : Type} (f : A -> B) : (forall a b, f a = f b -> a = b) -> forall l1 l2, map f l1 = map f l2 -> l1 = l2.
+Proof.
+  intros Hf. induction l1 as [|a l1 IH]; intros [|b l2] E; cbn [map] in E; try discriminate; [reflexivity|].
+  injection E as E1 E2. f_equal; auto.
+Qed.
+
+(* the symbol of a generic instantiation determines the function, the parameter types (name AND declaring module) and the
+   instantiating module *)
+Theorem inst_symbol_injective (hash : str -> str) :
+  (forall a b, hash a = hash b -> a = b) ->
+  forall fn1 fn2 t1 t2 p1 p2, inst_symbol hash fn1 t1 p1 = inst_symbol hash fn2 t2 p2 -> fn1 = fn2 /\ t1 = t2 /\ p1 = p2.
+Proof.
+  intros Hh fn1 fn2 t1 t2 p1 p2 E. unfold inst_symbol in E. injection E as E1 E2 E3.
+  split; [exact E1|split; [|apply hashable_injective, Hh, E3]].
+  apply (map_injective (fun t : tyarg => (fst t, hash (hashable (snd t))))); [|exact E2].
+  intros [n1 m1] [n2 m2] H. cbn in H. injection H as -> H. f_equal. apply hashable_injective, Hh, H.
+Qed.
+
+Example former_inst_collision_resolved : forall hash : str -> str, (forall a b, hash a = hash b -> a = b) ->
+  forall fn p, inst_symbol hash fn [(punkt, mod_ma)] p <> inst_symbol hash fn [(punkt, mod_mb)] p.
+Proof. intros hash Hh fn p E. apply (inst_symbol_injective hash Hh) in E. destruct E as [_ [E _]]. discriminate. Qed.
+
 (* the former collision: "/d/x/y" and "/d/x_y" *)
 Definition coll_a : str := [47; 100; 47; 120; 47; 121]%N.
 Definition coll_b : str := [47; 100; 47; 120; 95; 121]%N.
